@@ -16,11 +16,9 @@
 //	    asynch/k   asynchronous Dial (ReconnectTime 10 ms); k = 1, 3 attempts have arrived at the
 //	               listener and have failed; then Dialer.SetOption(OptionTLSConfig, correct)
 //	    synch      synchronous Dial returns the handshake error; SetOption(correct); Dial on the
-//	               same Dialer again.  (On the current tree a Dialer whose synchronous Dial
-//	               failed answers every later Dial with ErrAddrInUse; that answer is counted -
-//	               "synch-retry-on-same-dialer-refused" - and the retry is then made through a new
-//	               Dialer of the same socket.  Any other error, in particular the handshake error
-//	               of the configuration that was replaced, is a violation.)
+//	               same Dialer again: it connects.  (A Dialer whose synchronous Dial failed used to
+//	               answer every later Dial with ErrAddrInUse - found by this scenario, repaired in
+//	               /repo; that answer, like any other error, is a violation.)
 //	    rotated    the reverse order of events: the dialer is connected with a correct
 //	               configuration; the server is replaced by one whose certificate comes from
 //	               another authority (the connection is lost, the redial fails: one attempt has
@@ -511,8 +509,11 @@ func runCase(sp spec) *caseRun {
 		case nil:
 			c.counts["synch-retry-on-same-dialer-connected"]++
 		case mangos.ErrAddrInUse:
-			// the dialer object counts itself as started; the application retries with a new one
+			// the dialer object counts itself as started although its synchronous Dial failed and
+			// nothing is running: the corrected Dial cannot be retried on it (C12: "a Dial that
+			// fails for configuration or network reasons can be corrected and retried")
 			c.counts["synch-retry-on-same-dialer-refused"]++
+			c.fail("retry-on-same-dialer-refused", "first Dial: %s; SetOption(OptionTLSConfig, correct configuration) returned nil; Dial on the same Dialer again: ErrAddrInUse (the dialer counts itself as started although the synchronous attempt failed and no redial is scheduled)", first)
 			closeDialer(d)
 			d, err = cli.s.NewDialer(addr, opts(goodCfg, false))
 			if err != nil {
